@@ -1101,12 +1101,21 @@ def duration_semantics(repo, fn, x_expr=None, y_expr=None):
                 return ev(e.args[0])  # unit conversion of the same duration (assumption)
             if isinstance(e.func, ast.Name) and e.func.id == "int" and len(e.args) == 1:
                 return ev(e.args[0])
+            if isinstance(e.func, ast.Name) and e.func.id == "abs" and len(e.args) == 1:
+                raise AbsOfSigned(ev(e.args[0]))
             raise Undecided("call `%s` in _get_duration" % ast.unparse(e)[:50])
+        if isinstance(e, ast.BinOp) and isinstance(e.op, ast.Sub) and isinstance(e.left, ast.Call) and isinstance(e.right, ast.Call) \
+                and isinstance(e.left.func, ast.Name) and isinstance(e.right.func, ast.Name) \
+                and (e.left.func.id, e.right.func.id) == ("max", "min") and len(e.left.args) == 2 \
+                and sorted(astq.canon(a_) for a_ in e.left.args) == sorted(astq.canon(a_) for a_ in e.right.args):
+            raise AbsOfSigned(ev(e.left.args[0]) - ev(e.left.args[1]))  # max(a, b) - min(a, b) == |a - b|
         if isinstance(e, ast.BinOp) and isinstance(e.op, (ast.Sub, ast.Add)):
             a, b = ev(e.left), ev(e.right)
             return a - b if isinstance(e.op, ast.Sub) else a + b
         if isinstance(e, ast.UnaryOp) and isinstance(e.op, ast.USub):
             return -ev(e.operand)
+        if isinstance(e, ast.Call) and isinstance(e.func, ast.Name) and e.func.id == "abs" and len(e.args) == 1:
+            raise AbsOfSigned(ev(e.args[0]))
         c = astq.canon(e)
         if c == "__x__":
             return Lin.sym("x")
@@ -1466,6 +1475,31 @@ def override_gaps(repo, cls, override):
     return miss_opt, sorted(stores - got)
 
 
+def check_horizon_contract(ctx, repo):
+    """R1 (dependency): Detrender.transform / inverse_transform evaluate the trend at ForecastingHorizon(z.index, is_relative=False); the
+    forecasters turn it into positions with to_absolute / to_relative / to_absolute_int and the in-/out-of-sample masks.  Those conversions
+    are exactly what property C02 decides, so C02's rules are evaluated here and every (not already known) violation is reported as a broken
+    dependency of the detrending duality -- no duplicated logic."""
+    from .. import report
+    try:
+        from . import c02
+        sub = report.Ctx("C02", repo, ctx.tier)
+        c02.run(sub)
+    except Exception as e:  # C02 reports its own analysis errors
+        ctx.info("horizon contract (C02) not evaluated: %r" % (e,))
+        return
+    known = {(k["rule"], k["construct"]) for k in report.load_known() if k.get("property") == "C02" and k.get("status", "known") == "known"}
+    bad = [r for r in sub.results if r["verdict"] == report.VIOLATION and (r["rule"], r["construct"]) not in known]
+    n = sum(1 for r in sub.results if r["verdict"] == report.HOLDS)
+    for r in bad:
+        ctx.violation("R1", "Detrender:horizon-contract:%s" % r["construct"],
+                      "Detrender builds ForecastingHorizon(z.index, is_relative=False) and relies on the horizon conversions; C02-%s reports: %s"
+                      % (r["rule"], " ".join(str(r["detail"]).split())[:300]), r["loc"], witness={"c02_rule": r["rule"], "construct": r["construct"]})
+    if not bad:
+        ctx.ok("R1", "Detrender:horizon-contract", "the horizon conversions Detrender relies on satisfy C02 (%d obligations hold)" % n,
+               ctx.loc(repo.module(DET), repo.cls(DET + ":Detrender").node))
+
+
 # ====================================================================================== run
 
 
@@ -1489,6 +1523,7 @@ def run(ctx):
     ctx.assume("element-wise numpy ufuncs and pandas arithmetic keep the index of their pandas operand; boxcox/inv_boxcox, log/exp are mutually inverse")
     ctx.assume("pd.Series.__getitem__ with an integer array on an integer index selects by label (pandas 1.x semantics pinned by the repo)")
     check_duality(ctx, repo)
+    check_horizon_contract(ctx, repo)
     check_index(ctx, repo)
     check_phase(ctx, repo)
     check_alignment(ctx, repo)
